@@ -176,7 +176,7 @@ func vhC04(maxCtrlSec, maxRouteSec int) {
 }
 
 func vh_C04_inheritance_Q() { vhC04(1, 2) }
-func vh_C04_inheritance_T() { vhC04(2, 2) }
+func vh_C04_inheritance_T() { vhC04(2, 1) }
 
 // C14: malformed @Security properties are reported as errors, never as a crash
 func vh_C14_security_props_Q() {
